@@ -283,6 +283,43 @@ end
 /-- the round-trip assumption is satisfiable: latin-1 -/
 theorem C12_latin1_roundtrip : latin1.Roundtrip := latin1_roundtrip
 
+/-- **UTF-8 is no longer an assumption**: the strict decoder (shortest form, no surrogates, ≤ U+10FFFF — compared with
+    CPython's on valid and invalid byte strings by the check) inverts the strict encoder on every string it accepts, i.e.
+    every sequence of code points without lone surrogates, of any length. -/
+theorem C12_utf8_roundtrip : utf8.Roundtrip := utf8_roundtrip
+
+/-- … and UTF-16 with a byte-order mark (CPython's "utf-16" on a little-endian machine). -/
+theorem C12_utf16_roundtrip : utf16.Roundtrip := utf16_roundtrip
+
+/-- what the encoders reject is exactly the lone surrogates and the non-code-points -/
+theorem C12_utf8_domain (s : Str) : (utf8.enc s).isSome ↔ ∀ c ∈ s, c < 0x110000 ∧ isSurrogate c = false := by
+  induction s with
+  | nil => simp [utf8, utf8Enc, encodeWith]
+  | cons c r ih =>
+    simp only [utf8, utf8Enc] at ih ⊢
+    simp only [encodeWith, List.mem_cons, forall_eq_or_imp]
+    rw [← ih]
+    have hc : (utf8Char c).isSome ↔ (c < 0x110000 ∧ isSurrogate c = false) := by
+      unfold utf8Char isSurrogate
+      repeat' split
+      all_goals simp_all
+      all_goals omega
+    rw [← hc]
+    cases utf8Char c <;> cases encodeWith utf8Char r <;> simp
+
+section
+variable {α : Type} [DecidableEq α]
+/-- **TextFileStore(path, encoding="utf-8")**, no assumption left: for every string without lone surrogates `read()` returns
+    the string written (newline modes and `encoding=` arguments of the current source). -/
+theorem C12_text_store_utf8 {stg tgt : α} (hne : stg ≠ tgt) (s : Str) (fs : FS α)
+    (hs : ∀ c ∈ s, c < 0x110000 ∧ isSurrogate c = false) :
+    readValue (textCodec utf8 posix Gen.TextCodec.textWriteNewline Gen.TextCodec.textReadNewline)
+      (writeValue textFileStore (textCodec utf8 posix Gen.TextCodec.textWriteNewline Gen.TextCodec.textReadNewline)
+        true stg tgt s fs).fs tgt = some s := by
+  obtain ⟨b, hb⟩ := Option.isSome_iff_exists.mp ((C12_utf8_domain s).mpr hs)
+  exact (C12_text_store utf8 utf8_roundtrip hne s b fs hb).1
+end
+
 example : decodeText .universal (encodeText posix .universal [97, 13, 10, 98, 13, 99, 10]) = [97, 10, 98, 10, 99, 10] := by decide
 example : decodeText Gen.TextCodec.textReadNewline (encodeText posix Gen.TextCodec.textWriteNewline [97, 13, 10, 98, 13]) = [97, 13, 10, 98, 13] := by decide
 example : utf8Enc [0x41, 0xE9, 0x20AC, 0x1F600] = some [0x41, 0xC3, 0xA9, 0xE2, 0x82, 0xAC, 0xF0, 0x9F, 0x98, 0x80] := by decide
